@@ -55,7 +55,7 @@ def selected_entities(repo, cg, fn, body, ev):
     return out
 
 
-def run(ctx):
+def _run_base(ctx):
     repo, cg = ctx.repo, ctx.cg
     ctx.rule('R10.1', 'every strategy->side mapping site selects the entity of that side (tryresolve, generic resolver, list P/R arm, three renderers, merge_render)', floor=14)
     ctx.rule('R10.2', 'generic resolution sets the action and clears the conflict flag together, only for conflicted decisions without an applied strategy', floor=1)
@@ -230,3 +230,34 @@ def _block_of(repo, st):
         if isinstance(b, list) and st in b:
             return b
     return [st]
+
+
+def run(ctx):
+    """R10.6: in the mergers a strategy variable holds what the strategy table says for ITS path, nothing else.
+
+    "Leave conflicts open, then resolve each to that side" attaches a use-* strategy to the paths the table names; the
+    equivalence breaks as soon as a merger lets a strategy looked up for one path (the list) stand in for another
+    (its items), because conflicts are then settled at a different level than the root resolver would settle them."""
+    ctx.rule('R10.6', 'every *strategy variable of the mergers is defined only by a lookup in the strategy table (strategies.get(<path>)), never from another strategy variable', floor=6)
+    _run_base(ctx)
+    repo = ctx.repo
+    n = 0
+    for fid, fn in sorted(repo.functions.items()):
+        if not fid.startswith(GEN + ':') or '__unused__' in fid:
+            continue
+        params = {a.arg for a in fn.args.args + fn.args.kwonlyargs}
+        for name, ds in sorted(local_defs(fn).items()):
+            if not name.endswith('strategy'):
+                continue
+            for v, k, st in ds:
+                n += 1
+                is_lookup = isinstance(v, ast.Call) and isinstance(v.func, ast.Attribute) and v.func.attr == 'get' and dotted(v.func.value) == 'strategies'
+                is_lookup = is_lookup or (isinstance(v, ast.Subscript) and dotted(v.value) == 'strategies')
+                other = sorted({x.id for x in ast.walk(v) if isinstance(x, ast.Name) and x.id.endswith('strategy') and x.id != name})
+                ok = k == 'assign' and is_lookup and not other
+                ctx.inst('R10.6', fid, repo.norm(st) if isinstance(st, ast.stmt) else '%s = %s' % (name, ast.unparse(v)[:60]), ok,
+                         'looked up in the strategy table for its own path' if ok else
+                         '%s is given the value of %s: a strategy attached to one path now also decides conflicts on another path, which the '
+                         'leave-open-then-resolve reading does not do' % (name, other or ast.unparse(v)[:50]), st if isinstance(st, ast.AST) else fn)
+    if n < 6:
+        raise AnalysisError('fewer strategy lookups than expected in merging/generic.py')
